@@ -136,3 +136,48 @@ func toDocs(a bson.A) []bson.D {
 }
 
 func toFilters(a bson.A) []bson.D { return toDocs(a) }
+
+// expectedDocDelta derives, from a call's own result, by how much the number
+// of stored documents must have changed (ok=false: the result does not say,
+// e.g. a find-and-modify that may or may not have upserted).
+func expectedDocDelta(op string, res bson.D) (int64, bool) {
+	ec := asS(getD(res, "err"))
+	switch op {
+	case "insertOne":
+		if ec != "" {
+			return 0, true
+		}
+		return 1, true
+	case "insertMany":
+		return int64(len(asA(getD(res, "ids")))), getD(res, "ids") != nil || ec == ""
+	case "updateOne", "updateMany", "updateByID", "replaceOne":
+		if ec != "" {
+			return 0, true
+		}
+		return asI64(getD(res, "upserted")), true
+	case "deleteOne", "deleteMany":
+		if ec != "" {
+			return 0, true
+		}
+		return -asI64(getD(res, "deleted")), true
+	case "bulkWrite":
+		if getD(res, "inserted") == nil {
+			return 0, ec != ""
+		}
+		return asI64(getD(res, "inserted")) + asI64(getD(res, "upserted")) - asI64(getD(res, "deleted")), true
+	case "find", "findOne", "count", "estCount", "distinct", "listIndexes", "createIndex", "createIndexes", "dropIndex", "dropIndexKey", "dropIndexes":
+		return 0, true
+	}
+	return 0, false
+}
+
+// totalDocs counts the documents of all namespaces but the change log.
+func totalDocs(cat *lungo.Catalog) int64 {
+	var n int64
+	for h, c := range cat.Namespaces {
+		if h != lungo.Oplog {
+			n += int64(len(c.Documents.List))
+		}
+	}
+	return n
+}
